@@ -250,6 +250,7 @@ PROPS = {
     "C12": dict(
         module="SeliumModel.Props.C12",
         suites=["e2erec", "e2ereq", "backoff"],
+        fn_tie=[dict(module="SeliumModel.Props.C13Gen", gen="BackoffFn")],
         level="proof",
         rule="library publisher / subscriber / replier / requestor over loopback QUIC; the harness cuts the client's QUIC connection with the verif-hooks method (1, 3, 4 and 6 successive outages against budgets of 1-3 attempts, i.e. more outages than one budget) and checks after each outage that traffic sent after recovery is carried; exhaustion: the server is replaced by an impostor with another CA so that every attempt fails, the stream must report too-many-retries; outcomes compared with the Lean retry model; a connection lost again between a re-registration and its answer (scripted peer), a replier alone on its topic, a backoff delay longer than the request timeout, siblings on one shared connection; backoff: every configuration's schedule has exactly max_attempts items (all setter orders, saturating delays, caps); distinct = distinct case lines",
         trusted_base=COMMON_TRUST + [
